@@ -1,11 +1,78 @@
-//! Compile surface only: no harness may construct or drive a runtime.
+//! Model of a paused, current-thread tokio runtime (what turmoil's `Rt` builds): a virtual clock
+//! per runtime that only moves when every task is waiting for a timer ("auto-advance"), and then
+//! jumps exactly to the earliest pending deadline.
+//!
+//! Contract modelled (tokio docs, `Builder::start_paused` / `time::pause`):
+//!  * `Instant::now()` inside `block_on` / an `enter()` guard reads the runtime's own clock;
+//!  * time never advances while some future can make progress; when all are pending the clock is
+//!    set to the earliest deadline registered by a pending `Sleep`;
+//!  * `block_on` returns as soon as its future is ready.
+//! NOT modelled: wake-ups between tasks (wakers are no-ops under the harness stubs): a task that is
+//! unblocked by another task (channel, notify, JoinHandle) is only re-polled in the next round, and a
+//! round that ends with every future pending and no timer registered is reported as a deadlock
+//! (panic), never as progress. Harness programs therefore wait on timers only. Timer granularity
+//! (tokio rounds deadlines up to whole milliseconds) is not modelled either: deadlines are exact.
 use std::future::Future;
+use std::task::{Context, Poll, Waker};
+use std::time::Duration;
+
+pub(crate) struct RtState {
+    pub clock: Duration,
+    pub next_deadline: Option<Duration>,
+}
+pub(crate) static mut CURRENT_RT: *mut RtState = std::ptr::null_mut();
+static mut NEXT_ORIGIN: Duration = Duration::ZERO;
+static mut RUNTIMES_BUILT: usize = 0;
+static mut MAX_ROUNDS: usize = if cfg!(kani) { 6 } else { usize::MAX };
+
+/// Harness control: how many poll rounds one `block_on` may take (= distinct timer instants inside
+/// one call + 1). Nested async blocks are not constant-folded by CBMC, so the round loop is bounded
+/// here, explicitly, instead of by the global unwinding bound; a `block_on` that really needs more
+/// rounds PANICS (the harness fails), it is never cut short silently.
+pub fn model_set_max_rounds(n: usize) {
+    unsafe { MAX_ROUNDS = n }
+}
+
+/// Harness control: the clock value the NEXT runtime starts from (tokio: the wall-clock instant at
+/// which the runtime was built; every runtime has its own).
+pub fn model_set_next_runtime_origin(d: Duration) {
+    unsafe { NEXT_ORIGIN = d }
+}
+/// Model-only observer: number of runtimes built so far.
+pub fn model_runtimes_built() -> usize {
+    unsafe { RUNTIMES_BUILT }
+}
+pub(crate) fn current_clock() -> Option<Duration> {
+    unsafe {
+        if CURRENT_RT.is_null() {
+            None
+        } else {
+            Some((*CURRENT_RT).clock)
+        }
+    }
+}
+pub(crate) fn register_deadline(d: Duration) {
+    unsafe {
+        assert!(!CURRENT_RT.is_null(), "tokio model: timer polled outside of a runtime");
+        let st = &mut *CURRENT_RT;
+        st.next_deadline = match st.next_deadline {
+            Some(x) if x <= d => Some(x),
+            _ => Some(d),
+        };
+    }
+}
 
 pub struct Runtime {
-    _p: (),
+    st: *mut RtState,
 }
 pub struct EnterGuard<'a> {
+    prev: *mut RtState,
     _p: std::marker::PhantomData<&'a ()>,
+}
+impl Drop for EnterGuard<'_> {
+    fn drop(&mut self) {
+        unsafe { CURRENT_RT = self.prev }
+    }
 }
 #[derive(Clone, Debug)]
 pub struct Handle {
@@ -13,7 +80,7 @@ pub struct Handle {
 }
 impl Handle {
     pub fn current() -> Handle {
-        unimplemented!("tokio model: no runtime")
+        unimplemented!("tokio model: Handle")
     }
     pub fn try_current() -> Result<Handle, TryCurrentError> {
         Err(TryCurrentError(()))
@@ -23,13 +90,13 @@ impl Handle {
         F: Future + 'static,
         F::Output: 'static,
     {
-        unimplemented!("tokio model: no runtime")
+        unimplemented!("tokio model: Handle")
     }
     pub fn block_on<F: Future>(&self, _f: F) -> F::Output {
-        unimplemented!("tokio model: no runtime")
+        unimplemented!("tokio model: Handle")
     }
     pub fn enter(&self) -> EnterGuard<'_> {
-        unimplemented!("tokio model: no runtime")
+        unimplemented!("tokio model: Handle")
     }
 }
 #[derive(Debug)]
@@ -42,21 +109,56 @@ impl std::fmt::Display for TryCurrentError {
 impl std::error::Error for TryCurrentError {}
 
 impl Runtime {
-    pub fn block_on<F: Future>(&self, _f: F) -> F::Output {
-        unimplemented!("tokio model: no runtime")
+    pub fn block_on<F: Future>(&self, f: F) -> F::Output {
+        let prev = unsafe { CURRENT_RT };
+        unsafe { CURRENT_RT = self.st };
+        let mut f = std::pin::pin!(f);
+        let mut cx = Context::from_waker(Waker::noop());
+        let max_rounds = unsafe { MAX_ROUNDS };
+        let mut out: Option<F::Output> = None;
+        let mut round = 0;
+        while round < max_rounds {
+            unsafe { (*self.st).next_deadline = None };
+            if let Poll::Ready(v) = f.as_mut().poll(&mut cx) {
+                out = Some(v);
+                break;
+            }
+            let st = unsafe { &mut *self.st };
+            match st.next_deadline {
+                Some(d) => {
+                    if d > st.clock {
+                        st.clock = d;
+                    }
+                }
+                None => panic!("tokio model: block_on: every future is pending and no timer is registered"),
+            }
+            round += 1;
+        }
+        let out = match out {
+            Some(v) => v,
+            None => panic!("tokio model bound: block_on needed more than MAX_ROUNDS poll rounds"),
+        };
+        unsafe { CURRENT_RT = prev };
+        out
     }
     pub fn enter(&self) -> EnterGuard<'_> {
-        unimplemented!("tokio model: no runtime")
+        let prev = unsafe { CURRENT_RT };
+        unsafe { CURRENT_RT = self.st };
+        EnterGuard { prev, _p: std::marker::PhantomData }
     }
     pub fn handle(&self) -> &Handle {
-        unimplemented!("tokio model: no runtime")
+        unimplemented!("tokio model: Handle")
     }
     pub fn spawn<F>(&self, _f: F) -> crate::task::JoinHandle<F::Output>
     where
         F: Future + 'static,
         F::Output: 'static,
     {
-        unimplemented!("tokio model: no runtime")
+        unimplemented!("tokio model: only LocalSet tasks are modelled")
+    }
+    /// model-only observer
+    pub fn model_clock(&self) -> Duration {
+        unsafe { (*self.st).clock }
     }
 }
 
@@ -103,6 +205,8 @@ impl Builder {
         self
     }
     pub fn build(&mut self) -> std::io::Result<Runtime> {
-        unimplemented!("tokio model: a runtime cannot be built under the model")
+        let st = Box::into_raw(Box::new(RtState { clock: unsafe { NEXT_ORIGIN }, next_deadline: None }));
+        unsafe { RUNTIMES_BUILT += 1 };
+        Ok(Runtime { st })
     }
 }
